@@ -27,7 +27,10 @@ NONPASS = OUTCOMES[1:] + ("convert",)     # the default deviation alphabet of ev
 #   failS = raises a subclass of AssertionError -> failed;   pendingS = raises PendingStepError (subclass of
 #   StepNotImplementedError) -> pending;   errorN = raises the builtin NotImplementedError (superclass of
 #   StepNotImplementedError) -> error;   kbiS = raises a subclass of KeyboardInterrupt -> like kbi
-BASE = {"failS": "fail", "pendingS": "pending", "errorN": "error", "kbiS": "kbi"}
+#   failU / pendingU / errorU = an AssertionError / StepNotImplementedError / Exception subclass (with args) whose
+#   __str__ raises (ValueError): Step.run converts the exception to text INSIDE its except clauses; same status expected
+BASE = {"failS": "fail", "pendingS": "pending", "errorN": "error", "kbiS": "kbi",
+        "failU": "fail", "pendingU": "pending", "errorU": "error"}
 CLASS_VARIANTS = tuple(BASE)
 # outcomes produced THROUGH Context.execute_steps(): the step delegates to a nested step (documented: a failing nested
 # step surfaces as AssertionError in the caller, i.e. the calling step is `failed` whatever the nested failure was);
